@@ -30,6 +30,32 @@ pub struct Limits {
     pub weight: f64,
 }
 
+impl Limits {
+    /// How the constraints object under test comes to hold these limits: 0 = Constraints::new, 1 = update_range over an
+    /// earlier range with off-zero centres, 2 = update_range over an earlier unconstrained (from == to) range. The
+    /// choice is a function of the data (so replays agree) and must not matter: reference values are always taken
+    /// from a fresh Constraints::new.
+    pub fn history(&self) -> usize {
+        let h = self.from[0].to_bits() ^ self.to[0].to_bits().rotate_left(17) ^ self.from[5].to_bits().rotate_left(31) ^ self.weight.to_bits().rotate_left(7);
+        ((h ^ (h >> 29) ^ (h >> 47)) % 3) as usize
+    }
+    pub fn build(&self) -> Constraints {
+        match self.history() {
+            0 => Constraints::new(self.from, self.to, self.weight),
+            1 => {
+                let mut c = Constraints::new([2.0; 6], [4.0; 6], self.weight);
+                c.update_range(self.from, self.to);
+                c
+            }
+            _ => {
+                let mut c = Constraints::new([-0.3; 6], [-0.3; 6], self.weight);
+                c.update_range(self.from, self.to);
+                c
+            }
+        }
+    }
+}
+
 #[derive(Clone, Debug)]
 pub struct StackDesc {
     pub params: Parameters,
@@ -56,7 +82,7 @@ impl StackDesc {
             None => Arc::new(OPWKinematics::new(self.params)),
             Some(l) => Arc::new(OPWKinematics::new_with_constraints(
                 self.params,
-                Constraints::new(l.from, l.to, l.weight),
+                l.build(),
             )),
         };
         let mut cur = core;
